@@ -221,7 +221,10 @@ class Check:
         if not listed:
             for k in self.known:
                 print("KNOWN-FINDING: property=%s %s" % (self.prop, k))
-        for path, no_input in self.violations:
+        # when a failing input was found, the broken correspondences that led to it are not
+        # reported as "no failing input found" as well
+        found = [v for v in self.violations if not v[1]]
+        for path, no_input in (found or self.violations):
             print("VIOLATION property=%s replay=%s%s" % (self.prop, path, " no-failing-input-found" if no_input else ""))
         print("%s %s tier=%s seed=%d obligations=%d/%d cases=%d distinct_nontrivial=%d wall=%.1fs" % (
             self.prop, "FAIL" if self.violations else "ok", self.tier, self.seed, disc,
